@@ -1,7 +1,7 @@
 (** C11  Decoding is independent of how the reader fragments or interrupts the stream. *)
 From Coq Require Import List NArith PArith Bool.
 From Coq.Strings Require Import Byte.
-From Borsh Require Import Bytes Result Loop Ty Ser De Entry Io IoSamples IoProofsSched.
+From Borsh Require Import Bytes Result Loop Ty Ser De Entry Io IoSamples IoProofsSched RefusalStable.
 Import ListNotations.
 Local Open Scope N_scope.
 
@@ -50,6 +50,18 @@ Theorem C11_failure_transparent : forall (shim : bool) (c : cfg) (t : ty) (d : b
   end.
 Proof. exact failure_transparent. Qed.
 Print Assumptions C11_failure_transparent.
+
+(** A refusal that does not ask for more bytes ("Unexpected length of input") does not depend on what
+    follows the input in the stream, nor on how either run is fragmented: the decoder has seen enough
+    when it refuses, so it has no reason to pull further bytes (the read-ahead stage of the check observes
+    the bytes pulled on the implementation). *)
+Theorem C11_refusal_stable : forall (shim : bool) (c : cfg) (t : ty) (d x : bytes) (sch sch' : list rresp)
+    (k : kind) (m : msg),
+  benign sch -> benign sch' ->
+  dec (sched_reader shim) c t {| data := d; sched := sch |} = Err k m -> m <> MUnexpectedLength ->
+  dec (sched_reader shim) c t {| data := d ++ x; sched := sch' |} = Err k m.
+Proof. exact sched_refusal_stable. Qed.
+Print Assumptions C11_refusal_stable.
 
 (** [try_from_reader] / [from_reader]: the result is that of [try_from_slice]; the number of
     bytes pulled from the reader is the whole input when it is exactly one value, and the
